@@ -774,6 +774,7 @@ def _c06_zero_sized_promotion(world, sess, fb, fe):
             fu = sess.pre_fentries[bu]
             if sess.pre_fblocks.get(nu) != fu or fu not in fb.data:
                 continue
+            sess.fired["probe.zero_sized_successor_of_deleted_entry"] += 1
             if entries_now.get(nu) != fu:
                 raise core.Violation(
                     "C06",
